@@ -3,6 +3,7 @@
 package css
 
 import (
+	"bytes"
 	"io"
 
 	"github.com/tdewolff/parse/v2"
@@ -225,6 +226,9 @@ func VerifSheet() {
 			}
 		}
 	}
+	// a fixed rule after the derived items: a missing or misplaced End unit shows in what follows
+	src = append(src, "z{}"...)
+	exp = append(exp, vnUnit{BeginRulesetGrammar, "", []string{"z"}, true}, vnUnit{EndRulesetGrammar, "", nil, false})
 	vnCheckSheet(src, exp, false)
 	vReach("sheet")
 }
@@ -288,4 +292,51 @@ func VerifUnknownAtRule() {
 	gt, _, _ = p.Next()
 	vAssert(gt == ErrorGrammar && p.Err() == io.EOF && !p.HasParseError(), "unknown-atrule-sheet-end")
 	vReach("unknown")
+}
+
+// VerifErrContext (C15): the *parse.Error of the CSS parser carries the context Position computes
+// on the ORIGINAL text for the reported line and column: parsing must not have rewritten the
+// source line (property and at-rule names are lower-cased in copies, not in place).
+func VerifErrContext() {
+	name := vnCasedName("n", []string{"color", "margin-top"}[vRange("p", 0, 1)])
+	at := vnCasedName("at", "@media")
+	var src []byte
+	switch vRange("shape", 0, 2) {
+	case 0:
+		src = vnCat([]byte("a{"), name, []byte(":red;b c;d:e}"))
+	case 1:
+		src = vnCat(at, []byte(" x{a{"), name, []byte(":red;b c}}"))
+	case 2:
+		src = vnCat(name, []byte(":red;b c")) // inline list
+	}
+	orig := append([]byte(nil), src...)
+	inline := len(src) > 0 && src[0] != 'a' && src[0] != '@' && src[0] != 'A'
+	p := NewParser(parse.NewInputBytes(append(make([]byte, 0, len(src)+1), src...)), inline)
+	found := false
+	for i := 0; i < 20; i++ {
+		gt, _, _ := p.Next()
+		if gt == ErrorGrammar {
+			if !p.HasParseError() {
+				break
+			}
+			perr, ok := p.Err().(*parse.Error)
+			vAssert(ok, "css-error-not-a-parse-error")
+			if ok {
+				vAssert(perr.Line == 1 && perr.Column >= 1 && perr.Column <= len(orig)+1, "css-error-outside-input")
+				_, _, ctx := parse.Position(bytes.NewBuffer(append([]byte(nil), orig...)), perr.Column-1)
+				vAssert(perr.Context == ctx, "css-error-context-is-not-the-source-line")
+				found = true
+			}
+		}
+	}
+	vAssert(found, "declaration-without-colon-not-reported")
+	vReach("errcontext")
+}
+
+func vnCat(parts ...[]byte) []byte {
+	var out []byte
+	for _, p := range parts {
+		out = append(out, p...)
+	}
+	return out
 }
